@@ -98,3 +98,45 @@ func (p *Prog) WithHelpers(f *FuncInfo, depth int, onlyNew bool) []*FuncInfo {
 	}
 	return out
 }
+
+// KeyOwner names the function a construct belongs to for the purpose of violation keys: a helper the tables have
+// never seen that has exactly one calling function in its package belongs to that caller (transitively), so a
+// known finding whose construct was moved into an extracted helper keeps its key.
+func (p *Prog) KeyOwner(f *FuncInfo) string {
+	for depth := 0; depth < 4 && f != nil && IsNewHelper(f); depth++ {
+		var callers []*FuncInfo
+		for _, g := range p.Funcs {
+			if g.Pkg != f.Pkg || g == f {
+				continue
+			}
+			calls := false
+			ast.Inspect(g.Decl.Body, func(n ast.Node) bool {
+				call, ok := n.(*ast.CallExpr)
+				if !ok || calls {
+					return !calls
+				}
+				var id *ast.Ident
+				switch fun := ast.Unparen(call.Fun).(type) {
+				case *ast.Ident:
+					id = fun
+				case *ast.SelectorExpr:
+					id = fun.Sel
+				}
+				if id != nil {
+					if fn, _ := g.Pkg.TypesInfo.Uses[id].(*types.Func); fn == f.Obj {
+						calls = true
+					}
+				}
+				return true
+			})
+			if calls {
+				callers = append(callers, g)
+			}
+		}
+		if len(callers) != 1 {
+			break
+		}
+		f = callers[0]
+	}
+	return f.Name()
+}
